@@ -10,6 +10,14 @@
 (*   styledUnderlines (XTGETTCAP Smulx or the VTE tertiary-DA signature),    *)
 (*   osc4, osc10, osc11, osc176 (replies), explicitWidth (OSC 66 moves the   *)
 (*   cursor).                                                                *)
+(* What a reply advertises is its meaning, not its spelling or its timing:   *)
+(* hexadecimal strings (XTGETTCAP names and values, the tertiary-DA unit id) *)
+(* advertise the same in either letter case, and the set advertised is the   *)
+(* same whatever the size of the application's event queue. A terminal name  *)
+(* given in the XTVERSION reply is a reply too: the scenario lists in adv    *)
+(* the feature a documented name stands for ("tmux 3.4": unicodeCore).       *)
+(* The property says "used ONLY when advertised": nothing here demands that  *)
+(* an advertised mode is set, or set at a particular moment.                 *)
 EXTENDS Integers, Sequences, FiniteSets
 
 Features == {"sync", "unicodeCore", "colorTheme", "inBandResize", "kittyKeyboard", "kittyGraphics", "sixel",
